@@ -41,7 +41,31 @@ fn corpus() -> Vec<Case> {
     let b = |tmpl: Vec<TPart>, fin| BarInit { len: Some(10), fin, tmpl, target: TInit::Hidden };
     let t = |id: &str| vec![TPart::Lit(id.into()), TPart::Pos];
     let mk = |hz, bars: Vec<BarInit>, ops: Vec<(u64, Op)>| Case { w: 20, h: 50, fail_at: vec![], fail_from: None, mp: TInit::Term(hz), bars, ops };
+    let ml = |id: &str| vec![TPart::Lit(id.into()), TPart::Msg, TPart::Lit(" ".into()), TPart::Pos, TPart::Lit("/".into()), TPart::Len];
     vec![
+        // bottom alignment, shrunken frame, then println of a member: the text is painted below the
+        // padding rows and counted in last_line_count (reported by the reviewer, InMemoryTerm 12x40)
+        Case {
+            w: 40,
+            h: 12,
+            fail_at: vec![],
+            fail_from: None,
+            mp: TInit::Term(None),
+            bars: vec![b(ml("a"), Fin::AndClear), b(ml("b"), Fin::AndClear), b(ml("c"), Fin::AndClear)],
+            ops: vec![
+                (0, Op::SetAlign(true)),
+                (0, Op::Insert(Loc::End, 0)),
+                (0, Op::Insert(Loc::End, 1)),
+                (0, Op::Insert(Loc::End, 2)),
+                (1_000_000, Op::Tick(0)),
+                (2_000_000, Op::Tick(1)),
+                (3_000_000, Op::Tick(2)),
+                (4_000_000, Op::Remove(0)),
+                (5_000_000, Op::Finish(1, Fin::AndClear)),
+                (6_000_000, Op::Println(2, "x".into())),
+                (7_000_000, Op::Tick(2)),
+            ],
+        },
         // D6: refused draws while the head member is a zombie, then println
         mk(
             Some(1),
